@@ -648,5 +648,58 @@ theorem client_epoch_converges (w : Nat) (x : Option V) (s : State V) (as : List
     refine ⟨?_, d1, by rw [b3, d1], d2, d3, d4, d5⟩
     rw [← hhost]; simpa [d3, d5] using b4
 
+theorem ids_run (lg : Bool) (pt : V → V → V) (s : State V) (as : List (Act V)) :
+    (run lg pt s as).clients.map (·.id) = s.clients.map (·.id) := by
+  induction as generalizing s with
+  | nil => rfl
+  | cons a as ih => simp only [run, List.foldl_cons] at ih ⊢; rw [ih, ids_step]
+
+/-! ## epochs: different peers write at different times, separated by a drain -/
+
+structure Epoch (V : Type) where
+  writer : Option Nat          -- `none`: the host writes; `some w`: client `w` writes
+  acts : List (Act V)
+
+def Epoch.disciplined (e : Epoch V) : Prop :=
+  match e.writer with
+  | none => ∀ a ∈ e.acts, HostWrites a
+  | some w => ∀ a ∈ e.acts, ClientWrites w a
+
+def Epoch.writerPresent (e : Epoch V) (s : State V) : Prop :=
+  match e.writer with
+  | none => True
+  | some w => ∃ c ∈ s.clients, c.id = w
+
+/-- every epoch keeps the single-writer discipline and ends drained -/
+def EpochsOk (s : State V) : List (Epoch V) → Prop
+  | [] => True
+  | e :: es =>
+    e.disciplined ∧ e.writerPresent s ∧ Quiescent (run false replace s e.acts) ∧
+      EpochsOk (run false replace s e.acts) es
+
+def runEpochs (s : State V) (es : List (Epoch V)) : State V :=
+  es.foldl (fun s e => run false replace s e.acts) s
+
+def lastWrittenEpochs (x : Option V) (es : List (Epoch V)) : Option V :=
+  es.foldl (fun x e => lastWritten x e.acts) x
+
+theorem epochs_converge (x : Option V) (s : State V) (es : List (Epoch V))
+    (hn : (s.clients.map (·.id)).Nodup) (hc : Clean x s) (hok : EpochsOk s es) :
+    Clean (lastWrittenEpochs x es) (runEpochs s es) := by
+  induction es generalizing s x with
+  | nil => exact hc
+  | cons e es ih =>
+    obtain ⟨hd, hp, hq, hrest⟩ := hok
+    have hclean : Clean (lastWritten x e.acts) (run false replace s e.acts) := by
+      cases hw : e.writer with
+      | none =>
+        simp only [Epoch.disciplined, hw] at hd
+        exact host_epoch_converges x s e.acts hc hd hq
+      | some w =>
+        simp only [Epoch.disciplined, Epoch.writerPresent, hw] at hd hp
+        exact client_epoch_converges w x s e.acts hn hp hc hd hq
+    have hn' : ((run false replace s e.acts).clients.map (·.id)).Nodup := by rw [ids_run]; exact hn
+    exact ih _ _ hn' hclean hrest
+
 end Comp
 end BevySync
